@@ -533,7 +533,9 @@ func settle(d time.Duration) {
 
 type psCall struct {
 	op    string
-	stamp uint64
+	stamp uint64 // when the call arrived at the pass-through
+	after uint64 // when it was let through to the real peerstore (after the slow / held yields)
+	tag   string // Put:AgentVersion only: tag of the byzantine message whose agent string is being stored
 }
 
 type slowPS struct {
@@ -542,15 +544,24 @@ type slowPS struct {
 	x   *exec
 }
 
-func (s *slowPS) hook(op string, p peer.ID) {
+func (s *slowPS) hook(op string, p peer.ID) { s.hookTag(op, p, "") }
+
+func (s *slowPS) hookTag(op string, p peer.ID, tag string) {
 	x := s.x
 	if p != x.w.byz.id || !x.psArmed {
 		return
 	}
 	x.psCalls++
+	logged := -1
 	if len(x.psLog) < 4000 {
-		x.psLog = append(x.psLog, psCall{op, simrt.Stamp()})
+		logged = len(x.psLog)
+		x.psLog = append(x.psLog, psCall{op: op, stamp: simrt.Stamp(), tag: tag})
 	}
+	defer func() {
+		if logged >= 0 {
+			x.psLog[logged].after = simrt.Stamp()
+		}
+	}()
 	hold := 0
 	for _, tr := range x.psTrig {
 		if !tr.done && x.psCalls >= tr.at {
@@ -591,7 +602,11 @@ func (s *slowPS) SetProtocols(p peer.ID, pr ...protocol.ID) error {
 	return s.Peerstore.SetProtocols(p, pr...)
 }
 func (s *slowPS) Put(p peer.ID, k string, v any) error {
-	s.hook("Put:"+k, p)
+	tag := ""
+	if sv, ok := v.(string); ok && k == "AgentVersion" {
+		tag = tagOf(sv)
+	}
+	s.hookTag("Put:"+k, p, tag)
 	return s.Peerstore.Put(p, k, v)
 }
 func (s *slowPS) AddPubKey(p peer.ID, k crypto.PubKey) error {
@@ -1553,29 +1568,27 @@ func (x *exec) checkByz(when string, afterQuiescentLastClose bool) {
 	if extra > 400 {
 		o.Probe("more-than-400-addrs-stored")
 	}
-	// The address book's documented per-peer cap on addresses that no live connection holds
-	// (pstoremem.WithMaxAddressesPerPeer: "caps the unconnected addresses stored per peer ... Addresses held by a live
-	// connection (TTL >= ConnectedAddrTTL) bypass the cap"). The number is the one THIS harness configured through
-	// that option, not a constant read out of the implementation. At a quiescent instant at which the observer lists
-	// no connection to byz, everything stored for byz except what the harness inserted with PermanentAddrTTL is
-	// "unconnected" (anything else is reported by addr-kept-after-disconnect), so their number is bounded by the cap.
+	// The address book's per-peer cap on addresses that no live connection holds, configured by THIS harness through
+	// pstoremem.WithMaxAddressesPerPeer(n) ("caps the unconnected addresses stored per peer. When the cap is full, adding
+	// a new addr evicts the unconnected entry with the nearest expiry. Addresses held by a live connection ... bypass
+	// the cap"). Reading asserted (the statement says "capped" without a figure; the figure is the one the package
+	// documents for callers and that the harness itself passed in, not an implementation constant): ADDING must not
+	// take a peer that is at or below the cap above it — whether the addresses arrive one by one or as one batch.
+	// It is asserted only under a premise established from the harness's own model of the history (singleBatchPremise):
+	// some message M was consumed while the observer had, and ever after has, no connection to byz, and everything else
+	// that can ever have been stored for byz (pre-existing short-lived addresses + what all OTHER written messages vouch
+	// for) is at most n addresses. Then at a later quiescent instant without connection at most n non-permanent
+	// addresses may be kept. The doc is silent about UpdateAddrs moving a larger, legally connected entry into the
+	// unconnected class, so a disconnected peer above n WITHOUT that premise is only counted (see OBSERVATION in the
+	// header), never a violation.
 	if notPerm := len(s.addrs) - x.countPresent(s.addrs, x.prePerm); len(x.O.Swarm.ConnsToPeer(w.byz.id)) == 0 {
 		o.Probe("unconnected-cap-checked")
 		if notPerm > x.pl.perPeer {
-			// discriminator: how many messages with more addresses than the cap were (at least partly) written in this
-			// run. With one, the entry can only have crossed the cap inside ONE batch of one consumeMessage; with
-			// two or more, an entry that was legally larger than the cap while connected may have been carried over.
-			big := 0
-			for _, sr := range x.sends {
-				if sr.wrote && len(sr.msg.vouched) > x.pl.perPeer {
-					big++
-				}
+			if tag := x.singleBatchPremise(); tag != "" {
+				o.Violate("C13/unconnected-address-cap/single-batch", "%s: the observer has no connection to byz and keeps %d addresses for it that no connection holds; the address book was built with WithMaxAddressesPerPeer(%d); %s was consumed for a peer without connection that held at most %d addresses before (sends: %s)", when, notPerm, x.pl.perPeer, tag, x.pl.perPeer, x.sendSummary())
+			} else {
+				o.Probe("observed-disconnected-peer-above-unconnected-cap")
 			}
-			disc := "after-oversized-entry"
-			if big <= 1 {
-				disc = "single-batch"
-			}
-			o.Violate("C13/unconnected-address-cap/"+disc, "%s: the observer has no connection to byz and keeps %d addresses for it that no connection holds; the address book was built with WithMaxAddressesPerPeer(%d) (sends: %s)", when, notPerm, x.pl.perPeer, x.sendSummary())
 		}
 		if notPerm > 20 {
 			o.Probe("more-than-20-addrs-kept-for-disconnected-peer")
@@ -1585,6 +1598,57 @@ func (x *exec) checkByz(when string, afterQuiescentLastClose bool) {
 		o.Violate("C13/address-cap-after-disconnect", "%s: %d addresses kept for byz after the last connection closed at quiescence (documented: %d)", when, extra, capAddrsRecentlyConn)
 	}
 	x.logf("  %s: byz entry: %d addrs (%d beyond pre-existing) %d protocols agent=%.20q keys=%v", when, len(s.addrs), extra, len(s.protos), s.agent, s.inKeys)
+}
+
+// singleBatchPremise returns the tag of a message M for which the premise of the single-batch oracle holds, or "".
+//
+//	(ii) M's consumeMessage started (its first peerstore call, GetProtocols, was let through to the real peerstore at
+//	     stamp L; with several consumes in flight the EARLIEST open one is taken, which only makes L smaller) after the
+//	     observer's swarm had announced Connected AND Disconnected for every connection to byz it ever had: no
+//	     connection at any instant from L on. (Stamps of the harness's own notifee and pass-through.)
+//	(i)  |pre-existing short-lived addresses| + sum of |vouched(m)| over every OTHER message m of which at least one byte
+//	     was written <= n. By addr-not-vouched nothing else can be stored for byz, so apart from M's own addresses
+//	     the entry never holds more than n non-permanent addresses, in particular not when M arrived.
+func (x *exec) singleBatchPremise() string {
+	byz := x.w.byz.id
+	var lastDisc uint64
+	for _, oc := range x.obsConns {
+		if oc.c.RemotePeer() != byz {
+			continue
+		}
+		if oc.disconnected == 0 {
+			return ""
+		}
+		if oc.disconnected > lastDisc {
+			lastDisc = oc.disconnected
+		}
+	}
+	var open []uint64
+	for _, c := range x.psLog {
+		switch c.op {
+		case "GetProtocols":
+			open = append(open, c.after)
+		case "Put:AgentVersion":
+			if len(open) == 0 {
+				continue
+			}
+			l := open[0]
+			open = open[1:]
+			if c.tag == "" || l == 0 || l < lastDisc {
+				continue
+			}
+			others := len(x.preShort)
+			for _, sr := range x.sends {
+				if sr.msg.tag != c.tag && sr.wrote {
+					others += len(sr.msg.vouched)
+				}
+			}
+			if others <= x.pl.perPeer {
+				return c.tag
+			}
+		}
+	}
+	return ""
 }
 
 func (x *exec) countPresent(addrs []string, set map[string]bool) int {
